@@ -3,6 +3,10 @@
 From Coq Require Import ZArith NArith List Bool.
 Import ListNotations.
 Open Scope N_scope.
+Require Import SR.Gen.Cp037.
+
+(* code page 037 (the table is generated from CPython's cp037 codec, which is trusted to be the code page) *)
+Definition cp037 (b : N) : N := nth (N.to_nat b) cp037_table 65533.
 
 (* sign nibbles *)
 Definition pos_signs : list N := [12; 15; 10; 14].   (* C F A E *)
